@@ -84,7 +84,7 @@ func ruleUnwrap(rule string) RuleFn {
 				mi, isMI := as[0].Common().Args[1].(*ssa.MakeInterface)
 				okAs = isMI && strings.HasSuffix(mi.X.Type().String(), "dig.Error")
 			}
-			c.Check(okAs && len(uw) == 1, rule, "RootCause follows the chain of dig.Error values", "errors.As(err, *Error) / errors.Unwrap", "RootCause no longer walks the chain with errors.As(err, *dig.Error) and errors.Unwrap", nil, nil)
+			c.Check(okAs && len(uw) >= 1, rule, "RootCause follows the chain of dig.Error values", "errors.As(err, *Error) / errors.Unwrap", "RootCause no longer walks the chain with errors.As(err, *dig.Error) and errors.Unwrap", nil, nil)
 			// it returns either the last dig error (when nothing is wrapped) or the first non-dig error
 			nret := 0
 			good := true
@@ -92,12 +92,13 @@ func ruleUnwrap(rule string) RuleFn {
 				if r, ok := in.(*ssa.Return); ok {
 					nret++
 					s := an.Norm(an.Resolve(r.Results[0]))
-					if !(strings.HasPrefix(s, "φ") || strings.Contains(s, "new:") || s == "p:err") {
+					// the argument itself, the current dig error (a local cell / merged value), or what Unwrap returned
+					if !(strings.HasPrefix(s, "φ") || strings.Contains(s, "new:") || s == "p:err" || strings.HasPrefix(s, "errors.Unwrap(")) {
 						good = false
 					}
 				}
 			})
-			c.Check(good && nret == 2, rule, "RootCause returns the innermost error", "two returns: de / err", "RootCause's returns changed shape", nil, nil)
+			c.Check(good && nret >= 2, rule, "RootCause returns the innermost error", "returns: the argument / the last dig error / the first foreign cause", "RootCause returns something other than its argument, the dig error it stopped at, or that error's cause", nil, nil)
 		}
 	}
 }
